@@ -425,7 +425,8 @@ def gen_twopass(rng, cpu, nstmt, forms=None, rel=True, shadow=False, kinds="colo
       "colon"  `name:` at global scope (the original shape),
       "func"   every label point is `.func name` (the previous function is closed with `.endf`): no plain label
                stands between an instruction and the next function name,
-      "mixed"  `name:` global, `.func name`, `.scope` + local `name:`, local `name:` inside the open scope.
+      "mixed"  `name:` global, `.func name`, `.scope` + local `name:`, local `name:` inside the open scope,
+      "local"  one `.scope` (or one `.func`) around the whole code area: every name behind the first is local.
     odd: data directives of odd length (no `.align`) may stand in front of a label; markers are `.db`.
 
     Returns (source, info); info["defs"] lists per bound name, in source order,
@@ -493,6 +494,8 @@ def gen_twopass(rng, cpu, nstmt, forms=None, rel=True, shadow=False, kinds="colo
             return "colon"
         if kinds == "func":
             return "func"
+        if kinds == "local":         # the whole code area is one .scope / one .func; every name in it is local
+            return rng.choice(["scope", "func"]) if st["open"] is None else "colon"
         return rng.choice(["colon", "colon", "func", "func", "scope", "close"])
 
     # low area 1 (backward small labels)
@@ -572,13 +575,10 @@ def gen_twopass(rng, cpu, nstmt, forms=None, rel=True, shadow=False, kinds="colo
                 note_stmt("instr", form, cls, text)
                 stmts.append((len(labels), form, cls))
                 st["prev"] = (form, cls)
-                st["parity"] = None if odd else 0
+                st["parity"] = None
                 label(True)
                 label(True, name=opnd)
-                labels.pop(); labels.append((opnd, defs[-1]["marker"]))
                 close()
-                stmts.append((len(labels), "data", "-"))
-                st["prev"] = (mark, "-")
                 name, glob = label(True)
                 back_global.append(name)
                 near[0] = name
@@ -602,15 +602,100 @@ def gen_twopass(rng, cpu, nstmt, forms=None, rel=True, shadow=False, kinds="colo
         label(False, name=nme)
         defs[-1]["marker"] = marker(0x5A5A5A00)
         labels[-1] = (nme, defs[-1]["marker"])
-        st["pending"] = []
+        note_stmt("data", mark, "-", lines[-1].strip())
     lines.append(".org 0x%x" % (hi + 0x4000 if hi < 0x8000 else hi + 0x1000))
     for nme in fwd_large:
         label(False, name=nme)
         defs[-1]["marker"] = marker(0x5A5A5A00)
         labels[-1] = (nme, defs[-1]["marker"])
-        st["pending"] = []
+        note_stmt("data", mark, "-", lines[-1].strip())
     for d in defs:
         if d["odd"] is not None:
             d["odd"] = bool(d["odd"] & 1)
     return "\n".join(lines) + "\n", {"labels": labels, "stmts": stmts, "msize": msize, "cpu": cpu, "defs": defs,
                                      "kinds": kinds, "odd_mode": odd}
+
+
+# ---------------------------------------------------------------------------------------------
+# C02: the MSP430 constant-generator instance (model computes the sizes itself: `twopass430`)
+# ---------------------------------------------------------------------------------------------
+
+CG430_FORMS = ["mov.w #{}, r5", "add.w #{}, r7", "cmp.w #{}, r8", "bis.w #{}, r10", "xor.w #{}, r11", "sub.w #{}, r12"]
+
+
+def gen_msp430cg(rng, nstmt):
+    """`op.w #operand, Rn` statements whose operand is a constant, a backward or a forward label — with values
+    the constant generator has (0, 1, 2, 4, 8, 0xffff) and others —, names bound by `name:` / `.func name`,
+    data of even and odd length.  Returns (source, model statements of `twopass430`, start address)."""
+    lines = [".msp430"]
+    ops = []
+    names = []
+
+    def bind(name, func=False):
+        if func:
+            lines.append(".func " + name)
+            ops.append("f:" + name)
+        else:
+            lines.append(name + ":")
+            ops.append("l:" + name)
+        names.append(name)
+
+    back = {}
+    for v in rng.sample([0, 1, 2, 4, 6, 8, 0x10], 4):
+        lines.append(".org %d" % v)
+        ops.append("o:%d" % v)
+        bind("B%d" % v)
+        back["B%d" % v] = v
+    fwd = {}
+    for v in [0, 1, 2, 4, 6, 8, 0x10]:
+        if "B%d" % v not in back:
+            fwd["F%d" % v] = v
+    fwd["FL"] = 0x9000
+    start = rng.choice([0x8000, 0x8100, 0xc000])
+    lines.append(".org 0x%x" % start)
+    ops.append("o:%d" % start)
+    open_func = False
+    local = []
+    nl = 0
+    for k in range(nstmt):
+        if rng.random() < 0.7:
+            f = rng.random() < 0.3
+            if f and open_func:
+                lines.append(".endf")
+            if f:
+                for n in local:          # names local to the function that ends here
+                    del back[n]
+                local.clear()
+            bind("N%d" % nl, f)
+            back["N%d" % nl] = None
+            if open_func and not f:
+                local.append("N%d" % nl)
+            nl += 1
+            open_func = open_func or f
+        r = rng.random()
+        if r < 0.15:
+            bs = [rng.randrange(256) for _ in range(rng.choice([1, 2, 3, 4]))]
+            lines.append("  .db " + ", ".join(str(b) for b in bs))
+            ops.append("d:" + bytes(bs).hex())
+        else:
+            form = rng.choice(CG430_FORMS)
+            c = rng.random()
+            if c < 0.4:
+                v = rng.choice([0, 1, 2, 4, 8, 0xffff, -1, 3, 5, 7, 9, 0x10, 0x1234, 0x7fff, 0x8000, 0xfffe, 0xff])
+                lines.append("  " + form.replace("{}", str(v)))
+                ops.append("c:%d" % (v & 0xffff))
+            else:
+                n = rng.choice(sorted(back) if c < 0.65 else sorted(fwd))
+                lines.append("  " + form.replace("{}", n))
+                ops.append("s:" + n)
+    if open_func:
+        lines.append(".endf")
+    for n, v in fwd.items():
+        lines.append(".org 0x%x" % v)
+        ops.append("o:%d" % v)
+        bind(n)
+    return "\n".join(lines) + "\n", ops, back_first_address(ops), names
+
+
+def back_first_address(ops):
+    return int(ops[0].split(":")[1])
